@@ -13,6 +13,7 @@ import glob, json, os, re, shutil, subprocess, sys, tempfile, time
 
 pid, k = sys.argv[1], sys.argv[2]
 src = sys.argv[3] if len(sys.argv) > 3 else "/tmp/seed/%s-out/%s" % (pid, k)
+VDIR = os.environ.get("VERIF_DIR", "/verif")
 dest = "/verif/seeded/%s-%s" % (pid, k)
 env = dict(os.environ, GOPROXY="off", GOSUMDB="off", GOTOOLCHAIN="local")
 
@@ -92,7 +93,7 @@ try:
         checks = {}
         for cid in [pid] + [x for x in os.environ.get("SEED_EXTRA", "").split(",") if x]:
             e = dict(env, VERIF_REPO=wt)
-            rc, out = sh("./check %s quick" % cid, cwd="/verif", e=e)
+            rc, out = sh("./check %s quick" % cid, cwd=VDIR, e=e)
             keys = []
             for l in out.splitlines():
                 m = re.search(r"VIOLATION property=\S+ replay=(\S+)(.*)", l)
@@ -117,4 +118,4 @@ try:
             print("  check", cid, "exit", c["exit"], [v["key"] for v in c["violations"]][:6])
 finally:
     sh("git -C /repo worktree remove --force %s" % wt)
-    sh("git checkout -- evidence", cwd="/verif")
+    sh("git checkout -- evidence", cwd=VDIR)
